@@ -122,7 +122,7 @@ func TestC16(t *testing.T) {
 	trace := os.Getenv("C16_TRACE") != ""
 	var dump *os.File
 	if f := os.Getenv("C16_DUMP"); f != "" {
-		dump, _ = os.Create(f)
+		dump, _ = os.Create(fmt.Sprintf("%s.%d", f, env.Shard))
 		defer dump.Close()
 	}
 
